@@ -153,14 +153,11 @@ func (s *Statement) commitEvict(reclaimee *pod_info.PodInfo, evictOp evictOperat
 			reclaimee.Namespace, reclaimee.Name, reclaimee.Job)
 	}
 
-	previousStatus := reclaimee.Status
-	previousGpuGroup := reclaimee.GPUGroups
-	previousResourceClaimInfo := reclaimee.ResourceClaimInfo
-	previousIsVirtualStatus := reclaimee.IsVirtualStatus
 	if err := s.ssn.Cache.Evict(reclaimee.Pod, reclaimeePodGroup, evictOp.evictionMetadata, evictOp.message); err != nil {
 		log.InfraLogger.Errorf("Failed to evict task <%v/%v>: %v.", reclaimee.Namespace, reclaimee.Name, err)
-		if e := s.unevict(reclaimee, previousStatus, evictOp.previousNode, previousGpuGroup, previousResourceClaimInfo,
-			previousIsVirtualStatus); e != nil {
+		// The pod was not evicted: give it back what it had before the eviction, as recorded by the operation. (The
+		// pod's current status, GPU groups and claims are those of the eviction itself or of a later step.)
+		if e := evictOp.Reverse(); e != nil {
 			log.InfraLogger.Errorf("Failed to un-evict task <%v/%v>: %v.",
 				reclaimee.Namespace, reclaimee.Name, e)
 		}
